@@ -401,6 +401,6 @@ theorem reader_good : PGood reader := by
 
 theorem fromExisting_good (b : Bytes) : Good (budget b.length) (fromExisting b) := by
   unfold fromExisting
-  exact Good.bind' (PGood.run reader_good b) (fun objs => good_ofOption _ _)
+  exact Good.bind' (PGood.run reader_good b) (fun r => good_ofOption _ _)
 
 end Physis.C18Havok
